@@ -47,6 +47,9 @@ func c10(c *Ctx) {
 	// the committed configuration of its index
 	sInstallDurable(c, "R12/S-DURABLE")
 	c11R4(c, "R12/C11.R4")
+	// what a restart finds as the newest snapshot after a user Restore: stamped
+	// with the current term, so that no older local snapshot sorts before it
+	c20CreateStamp(c, "R13/C20.R4")
 }
 
 func c10R1(c *Ctx, rule string) {
